@@ -108,6 +108,7 @@ func typeShape(tn *types.TypeName) string {
 // global alias tables (one analysed program per process)
 var (
 	fnAlias        = map[*ssa.Function]string{}   // renamed function -> old simple name (method or function name)
+	fnFullAlias    = map[*ssa.Function]string{}   // function that moved to another receiver -> its old display name
 	fieldAlias     = map[*types.Var]string{}      // renamed field -> old name
 	fieldByOld     = map[string]*types.Var{}      // "pkg.Struct.oldname" -> field
 	typeAliasByOld = map[string]*types.TypeName{} // "pkg.OldName" -> renamed type
@@ -393,6 +394,47 @@ func (c *Ctx) resolveRenames(vdir string) {
 			fnAlias[best] = old
 			changed = true
 			c.Renames = append(c.Renames, fmt.Sprintf("function %s is now called %s (similarity %.2f)", fp.Name, best.Name(), bestS))
+		}
+	}
+	// second pass: a function that kept its NAME but moved to another receiver (a method of the executor that became a
+	// method of a new helper struct, or a free function that became a method): unique same-named function of the package
+	for _, fp := range af.Funcs {
+		if c.fnByName[fp.Name] != nil {
+			continue
+		}
+		already := false
+		for _, old := range fnFullAlias {
+			if old == fp.Name {
+				already = true
+			}
+		}
+		if already {
+			continue
+		}
+		simple := fp.Name
+		if i := strings.LastIndex(simple, "."); i >= 0 {
+			simple = simple[i+1:]
+		}
+		var cands []*ssa.Function
+		for _, f := range c.RepoFns {
+			if f.Parent() != nil || f.Pkg == nil || f.Pkg.Pkg.Path() != fp.Pkg || f.Name() != simple {
+				continue
+			}
+			if knownFn[c.fnName(f)] {
+				continue
+			}
+			if _, taken := fnAlias[f]; taken {
+				continue
+			}
+			if _, taken := fnFullAlias[f]; taken {
+				continue
+			}
+			cands = append(cands, f)
+		}
+		if len(cands) == 1 && jaccard(c.fnFeatures(cands[0]), fp.Feat) >= 0.4 {
+			fnFullAlias[cands[0]] = fp.Name
+			changed = true
+			c.Renames = append(c.Renames, fmt.Sprintf("function %s is now %s (same name, other receiver)", fp.Name, cands[0].String()))
 		}
 	}
 	if changed {
